@@ -26,3 +26,56 @@ Example C08_mpeg4audio_example :
   snd (dec_run c dinit [mkPkt 1 0 false [0;16; 0;8; 7]; mkPkt 2 0 false [0;16; 0;0]; mkPkt 3 0 true [0;16; 0;16; 8;9]])
   = [DMore; DErr; DFrame [[8;9]]] /\ cap = 5120.
 Proof. split; vm_compute; reflexivity. Qed.
+
+(* ---- the translated kernels (tools/go2coq, regenerated from the Go source on every run) ----
+   The length tests, the header arithmetic and the cap of rtpmpeg4audio/decoder.go - len(pkt.Payload) < 2, headersLen :=
+   int(uint16(Payload[0])<<8 | uint16(Payload[1])), headersLen == 0, pos := headersLen / 8 (+1 if % 8 != 0), the three
+   len(payload) < int(dataLen) tests, d.fragmentsSize = int(dataLens[0]), d.fragmentsSize += int(dataLens[0]),
+   d.fragmentsSize > mpeg4audio.MaxAccessUnitSize (with the generated constant), the counting loop of readAUHeaders
+   (i += SizeLength; i += IndexLength / IndexDeltaLength; count++: the loop over the translated statements computes
+   Model.hcount), its subtractions headersLen -= SizeLength / IndexLength / IndexDeltaLength guarded by IndexLength > 0 /
+   IndexDeltaLength > 0, the tests dataLen == 0, auIndex != 0, auIndexDelta != 0 - ARE the formulas of Model.dec / ceil8 /
+   split_aus / hcount / read_loop (configurations with 0 < SizeLength, all widths <= 32: the scope of the model). *)
+From Coq Require Import ZArith.
+From GVG Require Import Kern.
+From GV_mpeg4audio Require Import BridgeLib Bridge.
+Open Scope Z_scope.
+
+Theorem C08_mpeg4audio_kernels_are_the_code : forall (c : cfg), cfg_ok c ->
+  forall (pl payload : bytes) (b0 b1 hl l fs v x : N) (first : bool),
+  isbyte b0 -> isbyte b1 -> (hl < 65536)%N -> Z.of_N l < i64max -> Z.of_N (fs + l) < i64max ->
+  k_mpeg4audio_dec_short (Z.of_N (nlen pl)) = match pl with _ :: _ :: _ => false | _ => true end /\
+  k_mpeg4audio_dec_hlen (Z.of_N b0) (Z.of_N b1) = Z.of_N (b0 * 256 + b1) /\
+  k_mpeg4audio_dec_hzero (k_mpeg4audio_dec_hlen (Z.of_N b0) (Z.of_N b1)) = (b0 * 256 + b1 =? 0)%N /\
+  dec_pos_code (Z.of_N hl) = Z.of_N (ceil8 hl) /\
+  k_mpeg4audio_dec_aushort (Z.of_N (nlen payload)) (Z.of_N l) = (nlen payload <? l)%N /\
+  k_mpeg4audio_dec_fshort (Z.of_N (nlen payload)) (Z.of_N l) = (nlen payload <? l)%N /\
+  k_mpeg4audio_dec_cshort (Z.of_N (nlen payload)) (Z.of_N l) = (nlen payload <? l)%N /\
+  k_mpeg4audio_dec_first (Z.of_N l) = Z.of_N l /\
+  k_mpeg4audio_dec_acc (Z.of_N fs) (Z.of_N l) = Z.of_N (fs + l) /\
+  k_mpeg4audio_dec_cap (k_mpeg4audio_dec_acc (Z.of_N fs) (Z.of_N l)) (Z.of_N cap) = (cap <? fs + l)%N /\
+  hc_loop c (S (N.to_nat hl)) (Z.of_N hl) k_mpeg4audio_rh_ci0 k_mpeg4audio_rh_c0 = option_map Z.of_N (hcount c hl) /\
+  Z.to_N (rh_step c first (Z.of_N hl)) = (hl - sl c - (if first then il c else idl c))%N /\
+  (0 <? rh_step c first (Z.of_N hl)) = negb (hl - sl c - (if first then il c else idl c) =? 0)%N /\
+  k_mpeg4audio_rh_zero (Z.of_N v) = (v =? 0)%N /\
+  k_mpeg4audio_rh_hasidx (Z.of_N (il c)) = (0 <? il c)%N /\ k_mpeg4audio_rh_hasdelta (Z.of_N (idl c)) = (0 <? idl c)%N /\
+  k_mpeg4audio_rh_idxnz (Z.of_N x) = negb (x =? 0)%N /\ k_mpeg4audio_rh_deltanz (Z.of_N x) = negb (x =? 0)%N.
+Proof. exact Bridge.caps_kernels_are_the_code. Qed.
+Print Assumptions C08_mpeg4audio_kernels_are_the_code.
+
+(* 1 byte is too short, 2 are not; AU-headers-length bytes 01 2C = 300 bits = 38 bytes, 296 bits = 37 bytes; an AU of exactly
+   the remaining payload fits, one byte more does not; 5120 accumulated bytes pass the cap, 5121 do not; 32 header bits of
+   13/3/3 announce 2 AUs, 33 announce 3; after the first 13/3/3 header 16 of 16 bits are consumed, the Go int would go to -3
+   for 13 bits (0 in the model) *)
+Example C08_mpeg4audio_example_kernels :
+  k_mpeg4audio_dec_short 1 = true /\ k_mpeg4audio_dec_short 2 = false /\
+  k_mpeg4audio_dec_hlen 1 44 = 300 /\ k_mpeg4audio_dec_hzero 0 = true /\ k_mpeg4audio_dec_hzero 1 = false /\
+  dec_pos_code 300 = 38 /\ dec_pos_code 296 = 37 /\
+  k_mpeg4audio_dec_aushort 100 100 = false /\ k_mpeg4audio_dec_aushort 100 101 = true /\
+  k_mpeg4audio_dec_fshort 100 101 = true /\ k_mpeg4audio_dec_cshort 100 100 = false /\
+  k_mpeg4audio_dec_cap (k_mpeg4audio_dec_acc 5000 120) (Z.of_N cap) = false /\
+  k_mpeg4audio_dec_cap (k_mpeg4audio_dec_acc 5000 121) (Z.of_N cap) = true /\
+  hc_loop (mkCfg 13 3 3) 40 32 k_mpeg4audio_rh_ci0 k_mpeg4audio_rh_c0 = Some 2 /\
+  hc_loop (mkCfg 13 3 3) 40 33 k_mpeg4audio_rh_ci0 k_mpeg4audio_rh_c0 = Some 3 /\
+  rh_step (mkCfg 13 3 3) true 16 = 0 /\ rh_step (mkCfg 13 3 3) true 13 = -3 /\ rh_step (mkCfg 16 0 0) true 32 = 16.
+Proof. vm_compute. repeat split. Qed.
